@@ -82,6 +82,16 @@ func c03Pipeline(dir string, rng *RNG, idx int) (string, string, map[string]any)
 		inputs = append(inputs, in)
 		ams = append(ams, am)
 	}
+	// every 4th workload: an `allOf` with an inline object holding inline enums/structs (an intersection with an
+	// inline struct branch), generated for the languages that support intersections — passes of one language must
+	// not leak into the schemas of the languages processed after it (the language loop ranges over a Go map)
+	intersections := idx%4 == 3
+	if intersections {
+		p := filepath.Join(dir, "in", "pkx.json")
+		_ = os.MkdirAll(filepath.Dir(p), 0o755)
+		_ = os.WriteFile(p, []byte(c03IntersectionSchema), 0o644)
+		inputs = append(inputs, pipeInput{Kind: "jsonschema", Path: p, Package: "pkx"})
+	}
 	// schema transformations: aimed at order-relevant code (several hints, case-variant default keys)
 	var passes strings.Builder
 	passes.WriteString("passes:\n")
@@ -134,10 +144,19 @@ func c03Pipeline(dir string, rng *RNG, idx int) (string, string, map[string]any)
 	langs := append([]string(nil), langNames...)
 	shuffle(rng, langs)
 	nl := rng.Range(3, 7)
+	if intersections {
+		langs = []string{"go", "typescript", "java", "jsonschema", "openapi"}
+		shuffle(rng, langs)
+		nl = len(langs)
+	}
 	for _, l := range langs[:nl] {
 		flags := defaultLangFlags(l)
 		if l == "go" {
 			flags["package_root"] = "%goroot%"
+			if intersections {
+				// the Go helpers (equality, validation, strict decoding) do not support intersections: types only
+				flags = map[string]any{"package_root": "%goroot%"}
+			}
 		}
 		if l == "typescript" && rng.Bool() {
 			flags["enums_as_union_types"] = true
@@ -200,6 +219,9 @@ func c03Artefacts(pipelineFile, outRoot string) (map[string]string, error) {
 	}
 	if res.Err != nil {
 		arts["run"] = "error:" + maskMsg(res.Err.Error())
+		if os.Getenv("VERIF_DEBUG") != "" {
+			fmt.Println("DEBUG c03 run error:", truncate(res.Err.Error(), 400))
+		}
 		return arts, nil
 	}
 	for p, b := range res.Files {
@@ -342,3 +364,9 @@ func checkC03(r *Run) {
 	}
 	r.Assumptions = append(r.Assumptions, "Go randomises the start of every map range; repetition (in-process) and fresh processes (hash seed) are the only way to explore those orders")
 }
+
+const c03IntersectionSchema = `{"$schema":"http://json-schema.org/draft-07/schema#","definitions":{
+ "Base":{"type":"object","additionalProperties":false,"properties":{"id":{"type":"string"}},"required":["id"]},
+ "Alert":{"allOf":[{"$ref":"#/definitions/Base"},{"type":"object","properties":{"severity":{"enum":["low","high"],"type":"string"},"meta":{"type":"object","properties":{"k":{"type":"string"},"mode":{"enum":["x","y"],"type":"string"}}},"levels":{"type":"array","items":{"enum":["a","b"],"type":"string"}},"maybe":{"oneOf":[{"type":"string"},{"type":"null"}]}}}]},
+ "Holder":{"type":"object","additionalProperties":false,"properties":{"alert":{"$ref":"#/definitions/Alert"}}}
+},"type":"object","properties":{"holder":{"$ref":"#/definitions/Holder"}}}`
